@@ -82,7 +82,7 @@ func runC06(c *run.Ctx) {
 		"list accessor failure under the any strategy; a leaf value that cannot be coerced), plus sampled pairs and triples; oracle: reference executor with the same fault plan " +
 		"(exact multiset of error paths, null at the failed position, all other positions equal); a faulted run is non-trivial when the failing site is below the top level or inside a list/fragment/alias; " +
 		"distinct by (document, back-end, fault plan)"
-	nt := c.N(120, 4000)
+	nt := c.N(300, 4000)
 	fragseg := c.Open("K-C06-fragseg")
 	sites := 0
 	for i := 0; i < nt && !c.TooMany(); i++ {
